@@ -7,7 +7,7 @@ PROP = dict(
     id="C17",
     corr=["Model/FsmCorr.vo", "Model/C17Corr.vo", "Model/C08Invoice.vo"],
     design_ref="DESIGN.md §6 C17",
-    technique="Coq: reflective check on the state tables (a negotiation wait accepts OnTimeout and is FailOnrecover, both leading through a cancel-sending state to a finished state) proved sound for ARBITRARY tables by symbolic execution of the engine model along the cancel path; leaf lemmas for the timer-arming actions; decided by vm_compute on the tables regenerated from the code; step-level correspondence with the real SwapService; monitor on observed scenarios with the timer durations seen by a step observer",
+    technique="Coq: reflective check on the state tables (a negotiation wait accepts OnTimeout and is FailOnrecover, both leading through a cancel-sending state to a finished state) proved sound for ARBITRARY tables by symbolic execution of the engine model along the cancel path; leaf lemmas for the timer-arming actions; decided by vm_compute on the tables regenerated from the code; step-level correspondence with the real SwapService; monitor on observed scenarios with the timer durations seen by a step observer; plus the real GetPayreq of both adapters (the fee invoice the node is asked for expires after the requested 600 s)",
     level_text="Machine-checked for every swap data, every environment whose store writes succeed and every history with crashes/restarts: in each of the three negotiation waits (swap-out and swap-in requester without agreement, swap-out responder without fee payment) the 10-minute timer callback and a restart both cancel the swap, remove it from the active set and send the peer a cancel message (and do nothing else); the actions that begin the waits arm the timer and the fee invoice expires after 600 s. Three defects predicted by reading (D14, D15, D16) were refuted in Coq on the pre-fix tables (Findings/F_C17_*.v), reproduced on the real code and repaired by table fixes; the repaired tables satisfy the full statement.",
     level_note="Trusted: Coq kernel; hand-written model of actions.go/fsm.go tied by step-level correspondence; fakes. The duration of the timer (10 minutes) is a literal in three actions and is observed at run time by the monitor (step observer), not generated into Coq; the lightning node's 'invoice expired' notification is not used by the code (clightning AddPaymentNotifier ignores it): the swap-level timer with the same 600 s is what fails the swap.",
     assumptions=[
